@@ -41,7 +41,8 @@ def run(ck, ctx):
     # the lexer object is long-lived: its flags must be reset on every route to the parser, or a statement aborted in one
     # run() leaves them dirty for the first statement of the next run()
     S.t_reset_lexer(ck, ctx)
-    S.t_dom(ck, ctx, "process_line", S.is_self_call("set_default_flags_in_lexer"), S.is_self_call("process_statement"),
+    from ..specs.lines import check_reset_before_parse
+    check_reset_before_parse(ck, ctx,
             "Parser.process_line: flag reset dominates process_statement()",
             "every path that parses a statement must first put the lexer into its start state")
     S.t_noglobal(ck, ctx, "C14")
